@@ -196,11 +196,40 @@ def c12(ctx, spec):
     for e in (0, 1, 2): ctx.run_sharded('c12_e%d' % e, n, args=['--maxext', 4, '--maxops', 4], shards=5)
     ctx.extra['skipped_not_compilable_or_out_of_domain'] = {k: v for k, v in ctx.counters.items() if k.startswith('skipped:')}
 
+# ---------------------------------------------------------------------------------------------- C11
+def c11(ctx, spec):
+    names = {0: 'raw', 1: 'min', 2: 'checked'}
+    ctx.build([dict(name='c11_%s' % names[p], src='harness/c11_fancy.cpp', cfg='asan', defs=['C11_P=%d' % p], may_fail=(p != 0)) for p in (0, 1, 2)])
+    if not ctx.built['c11_raw']['ok']: ctx.inconclusive.append('harness build failed: c11_raw'); return
+    for p in (1, 2):
+        b = ctx.built['c11_%s' % names[p]]
+        if not b['ok']:  # compiles for T* but not for the fancy pointer: the library assumes something a user-defined pointer does not offer
+            ctx.add_violation('C11:differential-compile:%s' % names[p], 'the same harness TU compiles over raw pointers but not over the %s fancy pointer: %s' % (names[p], ' | '.join(l for l in b['log'].splitlines() if 'error' in l)[:600]), desc='harness/c11_fancy.cpp -DC11_P=%d' % p)
+    n = T(ctx, 6000, 250000)
+    for p in (0, 1, 2):
+        if ctx.built['c11_%s' % names[p]]['ok']: ctx.run_sharded('c11_%s' % names[p], n, args=['--maxext', 4, '--maxops', 5], shards=5)
+    ref = ctx.digests.get('c11_raw', {}); compared = 0
+    for p in (1, 2):
+        dd = ctx.digests.get('c11_%s' % names[p], {})
+        for k, h in ref.items():
+            if k in dd:
+                compared += 1
+                if dd[k] != h:
+                    ctx.add_violation('C11:digest-differs:%s' % names[p], 'case %d: digest %s over raw pointers, %s over the %s pointer' % (k, h, dd[k], names[p]), run=dict(build=ctx.replay_build(ctx.built['c11_%s' % names[p]]), args=['--maxext', 4, '--maxops', 5], seed=ctx.seed, case=k)); break
+    ctx.extra['digests_compared_across_pointer_types'] = compared
+    if compared < n: ctx.inconclusive.append('only %d digests compared across pointer types' % compared)
+
 HIST_RULE = ('histories (3..12 steps quick, ..40 thorough) over a pool of 4 owning arrays of one (element type, rank, allocator traits): 26 operation kinds (sizing/fill/allocator-extended/copy/move/view/init-list/iterator constructors, copy/move/self assignment over '
              'every prior state, assignment from views/other element type/init lists/ranges, swap, decay, 3 reextent overloads, clear, ={}, reshape, assign(first,last), element writes, destroy); unique ids as values; extents 0..3. '
              'After EVERY step: each live array vs. its model value, storage ranges pairwise disjoint, live-object registry == sum of num_elements, outstanding blocks == non-empty arrays with matching sizes, block owner == get_allocator(), get_allocator() == what the traits prescribe. ')
 
 REGISTRY = {
+    'C11': dict(fn=c11, level='exploration',
+                rule='one harness TU is built three times: over T* / std::allocator, over a minimal fancy pointer holding an opaque address with NO conversion to or from T* (plus its allocator), and over the same pointer with bounds + provenance checked on every dereference. '
+                     'Each case runs a random view program (as C01) over array_ref<int,D,P> and then owning arrays array<int,D,A> and array<std::string,D,A> (copy, ==, <, sort rows, reverse/rotate elements(), 3 reextents, view assignment, swap, move, clear, empty and zero-extent arrays, construction from rotated views): '
+                     'a digest of every observable result (sizes, strides, element identities, values, iterator differences, comparison results) must be identical in the three builds; the checking pointer must record no null / out-of-bounds dereference, no mixed-provenance comparison and no deallocate(null, n>0); '
+                     'a TU that compiles for T* but not for a fancy pointer is itself a violation (differential compile). distinct = hash(root shape, view program); non-trivial = non-empty final view',
+                assumptions=['the fancy pointer publishes default_allocator_type (the library\'s documented customisation point)', 'raw-pointer-only facilities (reinterpret_array_cast, member_cast, BLAS/FFTW/MPI adaptors) are excluded']),
     'C12': dict(fn=c12, level='exploration',
                 rule='source = view reached by a random view program (as C01, root D 1..3) over elements struct{double a; int b; int c;} / std::complex<double> / int; one of 18 projections is applied to it: member_cast (int and double members, plus a further rotated()), element_transformed (member pointer, value lambda, reference lambda), '
                      'static_array_cast<T const>, const_array_cast, as_const, reinterpret_array_cast<double>(2), reinterpret_array_cast<array<double,2>>(), blas::real / imag / real_doubled, arrays constructed from projections and from views of convertible element type. '
